@@ -919,6 +919,58 @@ pub fn interleave<N: Nd>(nd: &mut N, c1: u8, c2: u8) {
     witness!(nd, reported >= 1, "a report");
 }
 
+/// Literal bounded cross-check of the induction: from new(timeout), 4 arbitrary events on two
+/// channels - any contributing Control Change, a poll, or reset - at arbitrary non-decreasing
+/// times; every output equals what the observer's transition functions prescribe.
+pub fn literal<N: Nd>(nd: &mut N, c1: u8, c2: u8) {
+    let timeout = any_t(nd);
+    let mut s = Scanner::new(timeout.dur());
+    let mut a = EMPTY;
+    let mut now = any_t(nd);
+    let mut reported = 0;
+    let mut k = 0;
+    while k < 4 {
+        let first = nd.bool();
+        let which = nd.u8_le(9);
+        let d2 = nd.u8_le(127);
+        let t = any_t(nd);
+        nd.assume(now.le(t));
+        now = t;
+        set_now(now.dur());
+        let c = if first { c1 } else { c2 };
+        if which == 9 {
+            s.reset();
+            a = EMPTY;
+        } else if which == 8 {
+            let out = s.poll(chv(c));
+            let e = spec_poll(&mut a.ch[c as usize], now, timeout);
+            check!(same(&out, c, e), "C12 C13 C14 C15 C17 literal history: poll output equals the observer's");
+            if out.is_some() {
+                reported += 1;
+            }
+        } else {
+            // one call site per controller: the controller number stays concrete on every path
+            let out = match which {
+                0 => s.feed(&scc(c, 98, d2)),
+                1 => s.feed(&scc(c, 99, d2)),
+                2 => s.feed(&scc(c, 100, d2)),
+                3 => s.feed(&scc(c, 101, d2)),
+                4 => s.feed(&scc(c, 38, d2)),
+                5 => s.feed(&scc(c, 6, d2)),
+                6 => s.feed(&scc(c, 96, d2)),
+                _ => s.feed(&scc(c, 97, d2)),
+            };
+            let e = spec_feed(&mut a.ch[c as usize], pn_controller(which), d2, now);
+            check!(same(&out[0], c, e[0]) && same(&out[1], c, e[1]), "C12 C13 C14 C15 C17 literal history: feed output equals the observer's");
+            if out[0].is_some() {
+                reported += 1;
+            }
+        }
+        k += 1;
+    }
+    witness!(nd, reported >= 1, "a report within 4 events");
+}
+
 /// Witness twin: claims poll never reports.
 pub fn twin<N: Nd>(nd: &mut N) {
     let timeout = any_t(nd);
